@@ -16,6 +16,13 @@ CLAIMS = {
          "no by-value Connection copies, router adoption of wrapped connections, handlers pass on a connection that reads through theirs. "
          "Breaking any of them loses, duplicates or reorders bytes on some input/segmentation; stream equality for all inputs is not decided.",
          "DESIGN.md section 4 C01"),
+ "C02": ("finite-predicate path evaluation of the matcher combinators; bounded abstract interpretation of the compiled route handler's SSA with callee summaries; dominance rules",
+         "The AND/OR/NOT/empty truth tables of the combinators are decided exhaustively for up to 2 inner matchers; the compiled route handler is "
+         "interpreted abstractly for 0..3 routes over every outcome of matchers, prefetch rounds and handlers, and every path must satisfy the routing "
+         "invariants (handlers only right after their route matched the current stream, in order, no repetition, no matched route passed over, nothing after a terminal "
+         "route, fallback exactly once, last, on the handed-on connection, only when all remaining routes are decided 'no' on the current stream); fallback wiring of "
+         "subroute/server/listener wrapper. Verdicts of real matchers and longer route lists are not decided.",
+         "DESIGN.md section 4 C02"),
 }
 
 checks = []
